@@ -38,7 +38,7 @@ class TlcResult:
 
 _EMIT = re.compile(r'^<<"([A-Z]+)", "(.*)">>\s*$')
 _STATS = re.compile(r"^(\d+) states generated, (\d+) distinct states found")
-_COV = re.compile(r"^<(\w+) line \d+, col \d+ to line \d+, col \d+ of module (\w+)>: (\d+):(\d+)")
+_COV = re.compile(r"^<(\w+) line \d+, col \d+ to line \d+, col \d+ of module (\w+)(?: \([\d ]+\))?>: (\d+):(\d+)")
 _INV = re.compile(r"^Error: Invariant (\S+) is violated")
 _PROP = re.compile(r"^Error: (?:Action|Temporal) property (\S+)?.*violated")
 
